@@ -270,7 +270,13 @@ func (t *Thread) end(args []Value, err error, exception interface{}) {
 	t.status = ThreadDead
 	t.caller = nil
 	verifThread("dead", t, caller)
-	err = t.cleanupCloseStack(nil, 0, err) // TODO: not nil
+	if _, terminated := exception.(ContextTerminationError); terminated {
+		// The context was terminated: there are no resources to run the
+		// pending __close handlers, so discard them (as CallContext does).
+		t.closeStack.truncate(0)
+	} else {
+		err = t.cleanupCloseStack(nil, 0, err) // TODO: not nil
+	}
 	t.closeErr = err
 	// Release before handing control back: once the caller has received the
 	// values it runs concurrently with this goroutine, which must no longer
